@@ -5,7 +5,7 @@
    exactly m and k entries (the code reads b_signs from them). *)
 From Coq Require Import List Bool Arith QArith.
 From QE Require Import Base.Num Base.Pivot Base.PivotProofs C04.Model
-     C04.Proofs C04.Proofs2 C04.Proofs3 C04.Proofs4 C04.Proofs5 C04.Proofs6 C04.Proofs7 C04.Proofs8 C04.Proofs9 C04.ProofsMM1 C04.ProofsMM2 C04.Sep C04.ProofsSep C04.ProofsSep2.
+     C04.Proofs C04.Proofs2 C04.Proofs3 C04.Proofs4 C04.Proofs5 C04.Proofs6 C04.Proofs7 C04.Proofs8 C04.Proofs9 C04.ProofsMM1 C04.ProofsMM2 C04.ProofsMM3 C04.Sep C04.ProofsSep C04.ProofsSep2.
 Import ListNotations.
 Open Scope Q_scope.
 
@@ -190,10 +190,34 @@ Theorem C04_minmax_certificate : forall m n A max_iter v x y,
 Proof. exact minmax_certificate. Qed.
 Print Assumptions C04_minmax_certificate.
 
-(* not proved: the inner solve_tableau of minmax reaches status 0 below the iteration cap *)
+(* the inner solve of minmax can only end with status 0 or with the iteration cap (status 1): the lexicographic test
+   always finds a row on this tableau and the value is bounded on the feasible set, so status 3 is impossible *)
+Theorem C04_minmax_status_0_or_1 : forall m n A max_iter,
+  (0 < m)%nat -> (0 < n)%nat -> wf m n A ->
+  minmax_inner_status m n A max_iter = 0%nat \/ minmax_inner_status m n A max_iter = 1%nat.
+Proof. exact minmax_status_0_or_1. Qed.
+Print Assumptions C04_minmax_status_0_or_1.
+
+(* hence: unless the cap max_iter is exhausted, minmax returns probability vectors x, y with
+   min_j (x'A)_j = v = max_i (A y)_i (bounds for all j, i and both attained) *)
+Theorem C04_minmax_certificate_unless_cap : forall m n A max_iter v x y,
+  (0 < m)%nat -> (0 < n)%nat -> wf m n A ->
+  minmax_inner_status m n A max_iter <> 1%nat ->
+  minmax m n A max_iter opts0 = (v, x, y) ->
+  ((forall i, (i < m)%nat -> 0 <= vget x i) /\ sumQ m (vget x) == 1 /\
+   (forall j, (j < n)%nat -> 0 <= vget y j) /\ sumQ n (vget y) == 1 /\
+   (forall j, (j < n)%nat -> v <= sumQ m (fun i => vget x i * get A i j)) /\
+   (forall i, (i < m)%nat -> sumQ n (fun j => get A i j * vget y j) <= v)) /\
+  (exists j, (j < n)%nat /\ sumQ m (fun i => vget x i * get A i j) == v) /\
+  (exists i, (i < m)%nat /\ sumQ n (fun j => get A i j * vget y j) == v).
+Proof. exact minmax_certificate_unless_cap. Qed.
+Print Assumptions C04_minmax_certificate_unless_cap.
+
+(* not proved (the only open point for minmax): the cap is not exhausted, i.e. status 1 does not occur for a large
+   enough max_iter (termination of the lexicographic rule) *)
 Definition C04_minmax_terminates_full : Prop :=
   forall m n A, (0 < m)%nat -> (0 < n)%nat -> wf m n A ->
-    exists N, forall max_iter, (N <= max_iter)%nat -> minmax_inner_status m n A max_iter = 0%nat.
+    exists N, forall max_iter, (N <= max_iter)%nat -> minmax_inner_status m n A max_iter <> 1%nat.
 
 (* the hypotheses are satisfiable by non-trivial objects: an LP with a negative right-hand side and an
    equality row on which the model ends with status 0 *)
